@@ -105,7 +105,7 @@ func (x *run17) observe(c *cfg17, d *Doc, spec *specs.Spec) ([]int, map[string]i
 	jb := d.JSON(pretty)
 	yb := d.YAML(plain)
 	yamlOK := yamlDenotes(yb, d)
-	if d.K == dObj && len(d.O) == 0 {
+	if d.K == sdObj && len(d.O) == 0 {
 		yamlOK = true // "{}" is what a block-style writer emits; ValidateData takes the JSON branch for it
 	}
 	x.n++
@@ -247,29 +247,29 @@ var oddKeys = []string{
 func pickValue17(r *hx.R) *Doc {
 	switch r.Intn(9) {
 	case 0:
-		return dnull()
+		return sdnull()
 	case 1:
-		return dbool(r.Chance(0.5))
+		return sdbool(r.Chance(0.5))
 	case 2:
-		return dstr(hx.Pick(r, []string{"", "x", "1", "true", "null", "/dev/x", "A=b", "é", "a\nb", " lead", "yes", "0x10"}))
+		return sdstr(hx.Pick(r, []string{"", "x", "1", "true", "null", "/dev/x", "A=b", "é", "a\nb", " lead", "yes", "0x10"}))
 	case 3, 4:
-		return dnum(hx.Pick(r, interestingNumbers))
+		return sdnum(hx.Pick(r, interestingNumbers))
 	case 5:
-		return darr()
+		return sdarr()
 	case 6:
-		return dobj()
+		return sdobj()
 	case 7:
-		return darr(dstr("x"), dnum("1"))
+		return sdarr(sdstr("x"), sdnum("1"))
 	}
-	return dobj(mem("k", dstr("v")))
+	return sdobj(mem("k", sdstr("v")))
 }
 
 // wrongKinds: one value of every kind other than the node's own (integers and fractions count as different kinds).
 func wrongKinds(n *Doc) []*Doc {
-	all := []*Doc{dnull(), dbool(true), dstr("x"), dnum("1"), dnum("1.5"), darr(), dobj()}
+	all := []*Doc{sdnull(), sdbool(true), sdstr("x"), sdnum("1"), sdnum("1.5"), sdarr(), sdobj()}
 	var out []*Doc
 	for _, v := range all {
-		if v.K == n.K && (v.K != dNum || v.Num.IsInt() == n.Num.IsInt()) {
+		if v.K == n.K && (v.K != sdNum || v.Num.IsInt() == n.Num.IsInt()) {
 			continue
 		}
 		out = append(out, v)
@@ -289,13 +289,13 @@ func nodes17(d *Doc) []nodeRef {
 	var rec func(n *Doc, path string)
 	rec = func(n *Doc, path string) {
 		switch n.K {
-		case dArr:
+		case sdArr:
 			for i, x := range n.A {
 				p := fmt.Sprintf("%s[%d]", path, i)
 				out = append(out, nodeRef{n, i, p})
 				rec(x, p)
 			}
-		case dObj:
+		case sdObj:
 			for i, m := range n.O {
 				p := path + "." + m.K
 				out = append(out, nodeRef{n, i, p})
@@ -308,14 +308,14 @@ func nodes17(d *Doc) []nodeRef {
 }
 
 func (nr nodeRef) node() *Doc {
-	if nr.parent.K == dArr {
+	if nr.parent.K == sdArr {
 		return nr.parent.A[nr.idx]
 	}
 	return nr.parent.O[nr.idx].V
 }
 
 func (nr nodeRef) replace(v *Doc) {
-	if nr.parent.K == dArr {
+	if nr.parent.K == sdArr {
 		nr.parent.A[nr.idx] = v
 	} else {
 		nr.parent.O[nr.idx].V = v
@@ -323,7 +323,7 @@ func (nr nodeRef) replace(v *Doc) {
 }
 
 func (nr nodeRef) remove() {
-	if nr.parent.K == dArr {
+	if nr.parent.K == sdArr {
 		nr.parent.A = append(append([]*Doc{}, nr.parent.A[:nr.idx]...), nr.parent.A[nr.idx+1:]...)
 	} else {
 		nr.parent.O = append(append([]Member{}, nr.parent.O[:nr.idx]...), nr.parent.O[nr.idx+1:]...)
@@ -339,7 +339,7 @@ func mutateAt(d *Doc, k int, f func(nr nodeRef)) (*Doc, string) {
 }
 
 func annotDoc(keys []string, vals []*Doc) *Doc {
-	o := dobj()
+	o := sdobj()
 	seen := map[string]bool{}
 	for i, k := range keys {
 		if seen[k] {
@@ -362,7 +362,7 @@ func randAnnotations17(r *hx.R) *Doc {
 			keys[i] = hx.Pick(r, oddKeys)
 		}
 		if r.Chance(0.8) {
-			vals[i] = dstr(hx.Pick(r, []string{"", "v", "a\nb", "é", "1"}))
+			vals[i] = sdstr(hx.Pick(r, []string{"", "v", "a\nb", "é", "1"}))
 		} else {
 			vals[i] = pickValue17(r)
 		}
@@ -648,30 +648,30 @@ func genC17(r *hx.R, tier string, scratch string) (*hx.Suite, error) {
 	}
 	// every number replaced by the interesting literals
 	for k, nr0 := range nodes17(fullDoc) {
-		if nr0.node().K != dNum {
+		if nr0.node().K != sdNum {
 			continue
 		}
 		for _, lit := range interestingNumbers {
 			lit := lit
-			d, _ := mutateAt(fullDoc, k, func(nr nodeRef) { nr.replace(dnum(lit)) })
+			d, _ := mutateAt(fullDoc, k, func(nr nodeRef) { nr.replace(sdnum(lit)) })
 			add(d, nil, "numbers", false)
 		}
 	}
 	// the schema files say nothing about the content of any string: every string replaced by odd contents
 	for k, nr0 := range nodes17(fullDoc) {
-		if nr0.node().K != dStr || nr0.parent.K == dObj && strings.HasSuffix(nr0.path, ".annotations."+nr0.parent.O[nr0.idx].K) {
+		if nr0.node().K != sdStr || nr0.parent.K == sdObj && strings.HasSuffix(nr0.path, ".annotations."+nr0.parent.O[nr0.idx].K) {
 			continue // annotation values are covered by the annotation classes
 		}
 		for _, str := range []string{"", " ", "bad name!", "é", "-x-", "a\nb", "0", "x/y=z"} {
 			str := str
-			d, _ := mutateAt(fullDoc, k, func(nr nodeRef) { nr.replace(dstr(str)) })
+			d, _ := mutateAt(fullDoc, k, func(nr nodeRef) { nr.replace(sdstr(str)) })
 			add(d, nil, "string-content", false)
 		}
 	}
 	// an extra member in every object
 	objs := []int{-1}
 	for k, nr0 := range nodes17(fullDoc) {
-		if nr0.node().K == dObj {
+		if nr0.node().K == sdObj {
 			objs = append(objs, k)
 		}
 	}
@@ -693,7 +693,7 @@ func genC17(r *hx.R, tier string, scratch string) (*hx.Suite, error) {
 	for _, key := range oddKeys {
 		for lvl := 0; lvl < 2; lvl++ {
 			d := fullDoc.clone()
-			a := annotDoc([]string{key}, []*Doc{dstr("v")})
+			a := annotDoc([]string{key}, []*Doc{sdstr("v")})
 			if lvl == 0 {
 				d.set("annotations", a)
 			} else {
@@ -715,16 +715,16 @@ func genC17(r *hx.R, tier string, scratch string) (*hx.Suite, error) {
 	{ // total size limit: 262144 bytes of keys and values
 		for _, n := range []int{262144 - 5, 262144 - 4} {
 			d := fullDoc.clone()
-			d.set("annotations", annotDoc([]string{"big"}, []*Doc{dstr(strings.Repeat("v", n))}))
+			d.set("annotations", annotDoc([]string{"big"}, []*Doc{sdstr(strings.Repeat("v", n))}))
 			add(d, nil, "annotations-size", false)
 		}
 	}
 	// devices member and entries of odd kinds, null list entries
-	for _, v := range []*Doc{dnull(), darr(), dobj(), dstr("x"), darr(dnull()), darr(dstr("x")), darr(dnum("1")), darr(darr()),
-		darr(dobj()), darr(dobj(mem("name", dstr("d")))), darr(dobj(mem("name", dstr("d")), mem("containerEdits", dobj()))),
-		darr(dobj(mem("name", dstr("d")), mem("containerEdits", dnull()))),
-		darr(dobj(mem("name", dstr("d")), mem("annotations", dstr("x")), mem("containerEdits", dobj()))),
-		darr(dobj(mem("name", dstr("d")), mem("annotations", dobj(mem("bad key", dstr("v")))), mem("containerEdits", dobj())), dnull())} {
+	for _, v := range []*Doc{sdnull(), sdarr(), sdobj(), sdstr("x"), sdarr(sdnull()), sdarr(sdstr("x")), sdarr(sdnum("1")), sdarr(sdarr()),
+		sdarr(sdobj()), sdarr(sdobj(mem("name", sdstr("d")))), sdarr(sdobj(mem("name", sdstr("d")), mem("containerEdits", sdobj()))),
+		sdarr(sdobj(mem("name", sdstr("d")), mem("containerEdits", sdnull()))),
+		sdarr(sdobj(mem("name", sdstr("d")), mem("annotations", sdstr("x")), mem("containerEdits", sdobj()))),
+		sdarr(sdobj(mem("name", sdstr("d")), mem("annotations", sdobj(mem("bad key", sdstr("v")))), mem("containerEdits", sdobj())), sdnull())} {
 		d := fullDoc.clone()
 		d.set("devices", v)
 		add(d, nil, "devices-shape", false)
@@ -732,15 +732,15 @@ func genC17(r *hx.R, tier string, scratch string) (*hx.Suite, error) {
 	for _, list := range []string{"deviceNodes", "hooks", "mounts", "env", "additionalGids"} {
 		d := fullDoc.clone()
 		l := d.get("devices").A[0].get("containerEdits").get(list)
-		l.A = append(l.A, dnull())
+		l.A = append(l.A, sdnull())
 		add(d, nil, "null-entry", false)
 		d2 := fullDoc.clone()
-		d2.get("devices").A[0].get("containerEdits").set(list, darr())
+		d2.get("devices").A[0].get("containerEdits").set(list, sdarr())
 		add(d2, nil, "empty-list", false)
 	}
 	// top levels
-	for _, v := range []*Doc{dobj(), dnull(), darr(), darr(fullDoc.clone()), dstr("x"), dnum("1"), dbool(true),
-		dobj(mem("annotations", dobj(mem("bad key", dstr("v"))))), dobj(mem("devices", darr(dstr("x")))), dobj(mem("kind", dstr("k")))} {
+	for _, v := range []*Doc{sdobj(), sdnull(), sdarr(), sdarr(fullDoc.clone()), sdstr("x"), sdnum("1"), sdbool(true),
+		sdobj(mem("annotations", sdobj(mem("bad key", sdstr("v"))))), sdobj(mem("devices", sdarr(sdstr("x")))), sdobj(mem("kind", sdstr("k")))} {
 		add(v, nil, "top-level", false)
 	}
 	// random multi-mutations of random Specs
@@ -762,28 +762,28 @@ func genC17(r *hx.R, tier string, scratch string) (*hx.Suite, error) {
 			case 1:
 				nr0.replace(pickValue17(r))
 			case 2:
-				if nr0.node().K == dNum {
-					nr0.replace(dnum(hx.Pick(r, interestingNumbers)))
+				if nr0.node().K == sdNum {
+					nr0.replace(sdnum(hx.Pick(r, interestingNumbers)))
 				} else {
-					nr0.replace(dnull())
+					nr0.replace(sdnull())
 				}
 			case 3:
-				if nr0.node().K == dObj {
+				if nr0.node().K == sdObj {
 					name := hx.Pick(r, []string{"extra", "fileMode", "x", "Path", "NAME"})
 					if nr0.node().get(name) == nil {
 						nr0.node().O = append(nr0.node().O, Member{name, pickValue17(r)})
 					}
-				} else if nr0.node().K == dArr {
+				} else if nr0.node().K == sdArr {
 					nr0.node().A = append(nr0.node().A, pickValue17(r))
 				}
 			case 4:
-				if nr0.parent.K == dObj && nr0.parent.O[nr0.idx].K == "annotations" {
+				if nr0.parent.K == sdObj && nr0.parent.O[nr0.idx].K == "annotations" {
 					nr0.replace(randAnnotations17(r))
-				} else if nr0.node().K == dStr {
-					nr0.replace(dstr(hx.Pick(r, []string{"", "é", "a\nb", "x y", "0"})))
+				} else if nr0.node().K == sdStr {
+					nr0.replace(sdstr(hx.Pick(r, []string{"", "é", "a\nb", "x y", "0"})))
 				}
 			case 5:
-				if nr0.node().K == dObj && nr0.node().get("annotations") == nil && r.Chance(0.5) {
+				if nr0.node().K == sdObj && nr0.node().get("annotations") == nil && r.Chance(0.5) {
 					nr0.node().O = append(nr0.node().O, Member{"annotations", randAnnotations17(r)})
 				}
 			}
@@ -828,18 +828,18 @@ func genC17(r *hx.R, tier string, scratch string) (*hx.Suite, error) {
 			ce := d.get("devices").A[0].get("containerEdits")
 			switch path {
 			case "major", "uid", "gid":
-				ce.get("deviceNodes").A[0].set(path, dnum(lit))
+				ce.get("deviceNodes").A[0].set(path, sdnum(lit))
 			case "timeout":
-				ce.get("hooks").A[0].set("timeout", dnum(lit))
+				ce.get("hooks").A[0].set("timeout", sdnum(lit))
 			default:
-				ce.get("additionalGids").A[0] = dnum(lit)
-				d.get("containerEdits").get("additionalGids").A[0] = dnum(lit)
+				ce.get("additionalGids").A[0] = sdnum(lit)
+				d.get("containerEdits").get("additionalGids").A[0] = sdnum(lit)
 			}
 			aimed = append(aimed, d)
 		}
 	}
 	for _, key := range []string{"", "a", "ab", "abc", "é", "éé", "ééé", "a\nb", "ab\nc", "abc\n", "\n", "\n\n\n", "a\n\nbcd", "\U0001f600\U0001f600", "\U0001f600\U0001f600\U0001f600"} {
-		for vi, v := range []*Doc{dstr("v"), dnum("1"), dnull(), dbool(true)} {
+		for vi, v := range []*Doc{sdstr("v"), sdnum("1"), sdnull(), sdbool(true)} {
 			if vi%2 == 0 {
 				d := fullDoc.clone()
 				d.set("annotations", annotDoc([]string{key}, []*Doc{v}))
@@ -855,22 +855,22 @@ func genC17(r *hx.R, tier string, scratch string) (*hx.Suite, error) {
 		}
 	}
 	for _, f := range []func(d *Doc){
-		func(d *Doc) { d.get("devices").A[0].get("containerEdits").get("deviceNodes").A[0].set("major", dstr("10")) },
-		func(d *Doc) { d.set("kind", dnum("7")) },
-		func(d *Doc) { d.set("kind", dnum("7.5")) },
-		func(d *Doc) { d.set("cdiVersion", dnull()) },
+		func(d *Doc) { d.get("devices").A[0].get("containerEdits").get("deviceNodes").A[0].set("major", sdstr("10")) },
+		func(d *Doc) { d.set("kind", sdnum("7")) },
+		func(d *Doc) { d.set("kind", sdnum("7.5")) },
+		func(d *Doc) { d.set("cdiVersion", sdnull()) },
 		func(d *Doc) { d.del("cdiVersion") },
 		func(d *Doc) { d.del("annotations") },
 		func(d *Doc) { d.get("devices").A[0].del("annotations") },
 		func(d *Doc) { d.get("devices").A[0].get("containerEdits").get("deviceNodes").A[0].del("type") },
 		func(d *Doc) { d.get("devices").A[0].get("containerEdits").get("deviceNodes").A[0].del("permissions") },
 		func(d *Doc) { d.get("devices").A[0].get("containerEdits").get("deviceNodes").A[0].del("fileMode") },
-		func(d *Doc) { d.get("devices").A[0].get("containerEdits").get("hooks").A[0].set("hookName", dnum("1")) },
-		func(d *Doc) { d.get("devices").A[0].get("containerEdits").get("mounts").A[0].set("extra", dnum("1")) },
-		func(d *Doc) { d.get("devices").A[0].get("containerEdits").get("mounts").A[0].set("extra", dstr("s")) },
-		func(d *Doc) { d.get("devices").A[0].get("containerEdits").get("env").A[0] = dnum("1") },
+		func(d *Doc) { d.get("devices").A[0].get("containerEdits").get("hooks").A[0].set("hookName", sdnum("1")) },
+		func(d *Doc) { d.get("devices").A[0].get("containerEdits").get("mounts").A[0].set("extra", sdnum("1")) },
+		func(d *Doc) { d.get("devices").A[0].get("containerEdits").get("mounts").A[0].set("extra", sdstr("s")) },
+		func(d *Doc) { d.get("devices").A[0].get("containerEdits").get("env").A[0] = sdnum("1") },
 		func(d *Doc) { d.get("containerEdits").del("env") },
-		func(d *Doc) { d.set("extra", dstr("s")) },
+		func(d *Doc) { d.set("extra", sdstr("s")) },
 	} {
 		d := fullDoc.clone()
 		f(d)
